@@ -105,7 +105,7 @@ def confirm_eval(ctx, cands):
             seen.add(key)
             items.append(dict(env=c["env"], expr=c["expr"], stage=c.get("stage"), first=True))
     confirmed = []
-    for rnd in range(5):
+    for rnd in range(20):
         if not items:
             break
         events, posts = [], []
@@ -120,7 +120,11 @@ def confirm_eval(ctx, cands):
             root = len(po) - 1
             if root not in bad:
                 if it["first"]:
-                    raise Broken("candidate did not reproduce on re-execution: %s" % pretty.se(it["expr"])[:300])
+                    # may depend on map iteration order: retry in fresh processes before giving up
+                    it["tries"] = it.get("tries", 0) + 1
+                    if it["tries"] > 12:
+                        raise Broken("candidate did not reproduce in 13 re-executions: %s" % pretty.se(it["expr"])[:300])
+                    nxt.append(it)
                 continue        # repaired tree is fine: every difference was explained
             minimal = [i for i in sorted(bad) if not any(po[i][1] <= j < i for j in bad)]
             for i in minimal:
@@ -251,9 +255,21 @@ def confirm_events(ctx, kind, cands):
             seen.add(key)
             events.append((ev, c.get("stage")))
     bad, execd = exec_and_validate(ctx, "confirm.%s" % kind, spec["module"], [e for e, _ in events])
+    # An observation may depend on Go's per-loop map iteration order (that is what C14 is about), so a
+    # difference that does not show on the first re-execution is retried in fresh processes before the
+    # check is declared flaky.
+    for attempt in range(12):
+        missing = [k for k in range(len(events)) if k not in bad]
+        if not missing:
+            break
+        b2, e2 = exec_and_validate(ctx, "confirm.%s.retry%d" % (kind, attempt), spec["module"], [events[k][0] for k in missing])
+        for j, k in enumerate(missing):
+            if j in b2:
+                bad[k] = dict(b2[j], event=k + 1)
+                execd[k] = e2[j]
     for k, (ev, _) in enumerate(events):
         if k not in bad:
-            raise Broken("candidate (%s) did not reproduce on re-execution: %s" % (kind, json.dumps(ev)[:300]))
+            raise Broken("candidate (%s) did not reproduce in 13 re-executions: %s" % (kind, json.dumps(ev)[:300]))
     confirmed = []
     small, owner = [], []
     if spec.get("shrink"):
@@ -617,6 +633,55 @@ def run_C05(ctx):
                    ["mc/MC_Batch.tla"])
     add_m2(ctx, "batch", "requests", "MC_BatchGen", ["mc/MC_BatchGen.tla"], cfg=GEN_CFG, min_cases=300, timeout=7200)
     add_m3(ctx, "batch", "random", "batch", 1000 if q else 30000)
+    return vlib.finish(ctx, confirm_all)
+
+
+SYNTAX_CONSTS = "CONSTANT PathTable <- MCPathTable\nCONSTANT NameTable <- MCNameTable\nCONSTANT IdTable <- MCIdTable\n"
+vlib.TRACE_CFG["Trace_Parse"] = SYNTAX_CONSTS
+
+
+def tok_text(t):
+    if t.get("t") in ("id", "kw", "op"):
+        return t.get("s", "")
+    if t.get("t") == "int":
+        return "".join(str(d) for d in t.get("d") or [])
+    return '"' + "".join(chr(c) if 32 <= c < 127 else "\\u{%x}" % c for c in (t.get("raw") or [])) + '"'
+
+
+def describe_parse(ev, obs, entry):
+    toks = " ".join(tok_text(t) for t in (ev.get("tokens") or []))
+    exp = entry.get("exp") or {}
+    e = "rejects" if not exp.get("ok") else "accepts as [%s]" % "; ".join(pretty.sp(p) for p in exp.get("v") or [])
+    if not isinstance(obs, dict) or "list" not in obs:
+        o = "panic/invalid %s" % json.dumps(obs)[:200]
+    else:
+        def side(r):
+            return "rejects" if not r.get("ok") else "accepts as [%s]" % "; ".join(pretty.sp(p) for p in r.get("policies") or [])
+        o = "PolicyList.UnmarshalCedar %s, Policy.UnmarshalCedar %s" % (side(obs["list"]), side(obs["single"]))
+    return "parse `%s` => %s; the grammar %s" % (toks, o, e)
+
+
+KINDS["parse"] = dict(module="Trace_Parse", shrink=None, describe=describe_parse)
+
+
+@prop("C07")
+def run_C07(ctx):
+    ctx.rule = ("spec/Syntax.tla is the documented grammar as a recursive-descent parser over token sequences plus a renderer that "
+                "derives minimal parenthesisation from the grammar levels. M1: Parse(Render(a)) = a for every AST of the universe "
+                "(every parent/child/operand-position triple of 41 expression forms, every literal kind, all scope forms, "
+                "annotations, condition lists, string/pattern literals over StrB) in minimal and full parenthesisation; the named "
+                "families outside the grammar are rejected. M2: both renderings of every AST, accepted spellings of string "
+                "escapes, and every single-token deletion / duplication / replacement / swap of the representative policies are "
+                "emitted with the specification parser's verdict; the harness lays tokens out with random whitespace and "
+                "comments and runs PolicyList.UnmarshalCedar and Policy.UnmarshalCedar; accepted ASTs are compared node by node. "
+                "distinct = distinct token sequences.")
+    ctx.assumptions = ["the grammar in spec/Syntax.tla is a transcription of the documented Cedar grammar (trailing commas in "
+                       "comma-separated lists accepted as in the reference grammar; no limit on stacked unary operators)",
+                       "layouts are generated by the harness (whitespace, CR LF, line and block comments)"]
+    q = ctx.quick
+    cfg = GEN_CFG + SYNTAX_CONSTS + "INVARIANT RoundTrip\nINVARIANT NamedRejected\n"
+    add_m2(ctx, "parse", "asts", "MC_Syntax", ["mc/MC_Syntax.tla"], cfg=cfg + 'CONSTANT Mode = "ast"\n', min_cases=2000, timeout=7200)
+    add_m2(ctx, "parse", "mutants", "MC_Syntax", ["mc/MC_Syntax.tla"], cfg=cfg + 'CONSTANT Mode = "mutants"\n', min_cases=5000, timeout=7200)
     return vlib.finish(ctx, confirm_all)
 
 
